@@ -1,6 +1,6 @@
 CONSTANTS
   Shapes = {"T", "Option", "OptionOption", "BoxOption", "OptionBox", "ArcOptionOption", "RefOption", "VecOption"}
-  Ts = {"u32", "String", "VecU8", "MapStringU32", "User", "T", "unit", "DateTime", "GenU32", "Ovr"}
+  Ts = {"u32", "String", "VecU8", "MapStringU32", "User", "T", "unit", "DateTime", "GenU32", "Ovr", "Sas"}
   Defaults = {"absent", "bare", "merged_rename", "separate", "after_other", "path"}
 INIT Init
 NEXT Next
